@@ -210,7 +210,7 @@ static void run_scenario(char *line) {
             unsigned char *pb = malloc(strlen(pat) / 2 + 1); size_t n = unhex(pat, pb); pb[n] = 0;
             if (ncmd < MAXCMD && tag >= 0 && tag < MAXCMD) {
                 patterns[ncmd] = (char *) pb; free(scripts[tag]); scripts[tag] = strdup(sc[0] ? sc : "-");
-                cmds[ncmd].pattern = patterns[ncmd]; cmds[ncmd].callback = generic; cmds[ncmd].tag = tag; ncmd++;
+                cmds[ncmd].pattern = patterns[ncmd]; cmds[ncmd].callback = strcmp(sc, "NULL") ? generic : NULL; cmds[ncmd].tag = tag; ncmd++;      /* script NULL: an entry without callback */
                 cmds[ncmd].pattern = NULL; cmds[ncmd].callback = NULL; cmds[ncmd].tag = 0;
             } else free(pb);
         } else if (part[0] == 'I' || part[0] == 'L') {
@@ -349,13 +349,15 @@ static const scpi_command_t std_cmds[] = {
     SCPI_CMD_LIST_END
 };
 static void run_reg(char *line) {
-    /* REG qcap|W r v|P code|O|C|L|M cmdhex ... ; after each op: state dump */
+    /* REG qcap|W r v|T r bits|U r bits|P code|O|C|L|M cmdhex ... ; after each op: state dump */
     scpi_t ctx; int qcap = 2; scpi_error_t *eq = NULL; char *ibuf = malloc(256); char *save = NULL; wl = 0;
     oput("REG", 3);
     for (char *part = strtok_r(line, "|", &save); part; part = strtok_r(NULL, "|", &save)) {
         int a, b;
         if (!strncmp(part, "REG", 3)) { int noerr = part[3] == 'N'; sscanf(part + (noerr ? 4 : 3), "%d", &qcap); eq = malloc(sizeof(scpi_error_t) * qcap); SCPI_Init(&ctx, std_cmds, noerr ? &ifc_noerr : &ifc, scpi_units_def, "a", "b", "c", "d", ibuf, 256, eq, qcap); }
         else if (part[0] == 'W') { sscanf(part, "W %d %d", &a, &b); SCPI_RegSet(&ctx, (scpi_reg_name_t) a, (scpi_reg_val_t) b); reg_show(&ctx); }
+        else if (part[0] == 'T') { sscanf(part, "T %d %d", &a, &b); SCPI_RegSetBits(&ctx, (scpi_reg_name_t) a, (scpi_reg_val_t) b); reg_show(&ctx); }
+        else if (part[0] == 'U') { sscanf(part, "U %d %d", &a, &b); SCPI_RegClearBits(&ctx, (scpi_reg_name_t) a, (scpi_reg_val_t) b); reg_show(&ctx); }
         else if (part[0] == 'P') { sscanf(part, "P %d", &a); SCPI_ErrorPush(&ctx, (int16_t) a); reg_show(&ctx); }
         else if (part[0] == 'O') { scpi_error_t e; SCPI_ErrorPop(&ctx, &e); SCPIDEFINE_free(&ctx.error_info_heap, e.device_dependent_info, false); reg_show(&ctx); }
         else if (part[0] == 'C') { SCPI_ErrorClear(&ctx); reg_show(&ctx); }
